@@ -14,6 +14,7 @@ import (
 	"time"
 
 	"git.metabarcoding.org/obitools/obitools4/obitools4/pkg/obiiter"
+	"git.metabarcoding.org/obitools/obitools4/obitools4/pkg/obioptions"
 	"git.metabarcoding.org/obitools/obitools4/obitools4/pkg/obiverif"
 	log "github.com/sirupsen/logrus"
 
@@ -77,6 +78,17 @@ func emptyClass(sizes []int) string {
 	return "empty-batch"
 }
 
+// nonEmptyIDs: the identifiers of the records that have a sequence, in order.
+func nonEmptyIDs(recs []itx.Rec) []string {
+	ids := []string{}
+	for _, r := range recs {
+		if r.Seq != "" {
+			ids = append(ids, r.ID)
+		}
+	}
+	return ids
+}
+
 func runWriter(c *core.Ctx, kind string, workers int, yield bool) {
 	nb := c.Idx % 7
 	if c.Idx%19 == 18 {
@@ -88,9 +100,11 @@ func runWriter(c *core.Ctx, kind string, workers int, yield bool) {
 	}
 	recs := wrx.Recs(c.Rng, itx.Sum(sizes), func() int { return []int{1, 5, 59, 60, 61, 130}[c.Rng.Intn(6)] })
 	parts := itx.Partition(recs, sizes)
-	if (kind == "fasta" || kind == "fastq") && c.Idx%6 == 4 && nb > 0 {
+	if c.Idx%6 == 4 && nb > 0 {
 		// --skip-empty: records without sequence (GenBank entries without ORIGIN give such records)
-		// are left out; one whole batch is made of them, a few others hold one
+		// are left out; one whole batch is made of them, a few others hold one. The JSON and CSV writers
+		// are given the option too: they write every record (or, should they honour the option one day,
+		// the records with a sequence) - either way one valid array / one header and one row per record
 		wrx.SkipEmpty = true
 		defer func() { wrx.SkipEmpty = false }()
 		whole := c.Rng.Intn(nb)
@@ -233,16 +247,26 @@ func runWriter(c *core.Ctx, kind string, workers int, yield bool) {
 			}
 			wantIDs := itx.IDs(recs)
 			if wrx.SkipEmpty {
-				wantIDs = wantIDs[:0:0]
-				for _, r := range recs {
-					if r.Seq != "" {
-						wantIDs = append(wantIDs, r.ID)
-					}
-				}
+				wantIDs = nonEmptyIDs(recs)
 			}
 			if err != nil || itx.CompareSeq(gen.IDsOf(parsed), wantIDs) != "" {
 				det["got"] = clip(out)
 				c.Violate("records:"+cls, "the output, re-parsed, is not the record list in order", det)
+				continue
+			}
+			if kind == "fastq" && obioptions.OutputQualityShift() == 33 {
+				// well-formed FASTQ: one printable quality symbol ('!'..'~') per nucleotide, whatever the scores
+				for _, r := range parsed {
+					bad := len(r.Qual) != len(r.Seq)
+					for k := 0; k < len(r.Qual) && !bad; k++ {
+						bad = r.Qual[k] < 33 || r.Qual[k] > 126
+					}
+					if bad {
+						det["id"], det["quality_line"] = r.ID, fmt.Sprintf("%q", r.Qual)
+						c.Violate("fastq-quality-line:"+cls, "a quality line of the FASTQ output is not one printable symbol per nucleotide", det)
+						break
+					}
+				}
 			}
 		case "json":
 			var arrJ []map[string]any
@@ -265,7 +289,7 @@ func runWriter(c *core.Ctx, kind string, workers int, yield bool) {
 					}
 				}
 			}
-			if d := itx.CompareSeq(ids, itx.IDs(recs)); d != "" {
+			if d := itx.CompareSeq(ids, itx.IDs(recs)); d != "" && !(wrx.SkipEmpty && itx.CompareSeq(ids, nonEmptyIDs(recs)) == "") {
 				det["got_ids"] = ids
 				c.Violate("json-"+d+":"+cls, "the JSON array does not hold one object per record in order", det)
 			}
@@ -288,7 +312,7 @@ func runWriter(c *core.Ctx, kind string, workers int, yield bool) {
 			for _, r := range rows[1:] {
 				ids = append(ids, r[0])
 			}
-			if d := itx.CompareSeq(ids, itx.IDs(recs)); d != "" {
+			if d := itx.CompareSeq(ids, itx.IDs(recs)); d != "" && !(wrx.SkipEmpty && itx.CompareSeq(ids, nonEmptyIDs(recs)) == "") {
 				det["got_ids"] = ids
 				c.Violate("csv-"+d+":"+cls, "the CSV rows are not one per record in order", det)
 			}
